@@ -527,9 +527,94 @@ class _WhileBreak(ast.NodeTransformer):
         return n
 
 
+def _nnf(e):
+    """Negation normal form of a test: `not` pushed through and/or down to the atoms (comparisons are negated by their operator)."""
+    if isinstance(e, ast.UnaryOp) and isinstance(e.op, ast.Not):
+        x = e.operand
+        if isinstance(x, (ast.BoolOp, ast.Compare)) or (isinstance(x, ast.UnaryOp) and isinstance(x.op, ast.Not)):
+            if isinstance(x, ast.Compare) and len(x.ops) != 1:
+                return e
+            return _nnf(_negate(x))
+        return e
+    if isinstance(e, ast.BoolOp):
+        vals = []
+        for v in e.values:
+            v = _nnf(v)
+            # flatten  a and (b and c)
+            if isinstance(v, ast.BoolOp) and type(v.op) is type(e.op):
+                vals += v.values
+            else:
+                vals.append(v)
+        return ast.copy_location(ast.BoolOp(op=e.op, values=vals), e)
+    return e
+
+
+def _is_negative(t):
+    if isinstance(t, ast.UnaryOp) and isinstance(t.op, ast.Not):
+        return True
+    return isinstance(t, ast.Compare) and len(t.ops) == 1 and isinstance(t.ops[0], (ast.IsNot, ast.NotEq, ast.NotIn))
+
+
+class _NNF(ast.NodeTransformer):
+    def visit_If(self, n):
+        self.generic_visit(n)
+        n.test = _nnf(n.test)
+        # canonical polarity: an if/else on a single negative atom is written on the positive atom with the arms swapped
+        if n.orelse and _is_negative(n.test) and not (len(n.orelse) == 1 and isinstance(n.orelse[0], ast.If)) \
+                and not (len(n.body) == 1 and isinstance(n.body[0], ast.If) and n.body[0].orelse):
+            n.test, n.body, n.orelse = _negate(n.test), n.orelse, n.body
+        return n
+
+    def visit_While(self, n):
+        self.generic_visit(n)
+        n.test = _nnf(n.test)
+        return n
+
+
+class _UnGuard(ast.NodeTransformer):
+    """`if c: continue` + REST at the top level of a loop body  ->  `if not c: REST`; `if c: return` + REST at the top level of a
+    function body -> `if not c: REST` (the structured form; which of the two spellings the source uses is immaterial)."""
+
+    def _fold(self, body, jump_type, value_none=False):
+        out = list(body)
+        i = len(out) - 2
+        changed = False
+        while i >= 0:
+            st = out[i]
+            if isinstance(st, ast.If) and not st.orelse and len(st.body) == 1 and isinstance(st.body[0], jump_type) \
+                    and (not value_none or st.body[0].value is None or (isinstance(st.body[0].value, ast.Constant) and st.body[0].value.value is None)) \
+                    and i + 1 < len(out):
+                rest = out[i + 1:]
+                new = ast.copy_location(ast.If(test=_nnf(_negate(st.test)), body=rest, orelse=[]), st)
+                out = out[:i] + [new]
+                changed = True
+            i -= 1
+        return out
+
+    def visit_For(self, n):
+        self.generic_visit(n)
+        n.body = self._fold(n.body, ast.Continue)
+        return n
+
+    visit_AsyncFor = visit_For
+    visit_While = visit_For
+
+    def _fn(self, n):
+        self.generic_visit(n)
+        if not any(isinstance(x, ast.Return) and x.value is not None and not (isinstance(x.value, ast.Constant) and x.value.value is None)
+                   for x in ast.walk(n)):
+            n.body = self._fold(n.body, ast.Return, value_none=True)
+        return n
+
+    visit_FunctionDef = _fn
+    visit_AsyncFunctionDef = _fn
+
+
 def lower_ifexp(tree):
     tree = _IfExp().visit(tree)
-    return _WhileBreak().visit(tree)
+    tree = _WhileBreak().visit(tree)
+    tree = _NNF().visit(tree)
+    return _UnGuard().visit(tree)
 
 
 # ---- comprehension -> loop -----------------------------------------------------------------------------------------
